@@ -586,3 +586,17 @@ Definition go_prefix (p k : list byte) : bool :=
 Definition guard_trim (m : list (list byte * value)) (p : list byte) : bool :=
   existsb (fun e => go_prefix p (fst e) && negb (bytes_prefix p (fst e))) m.
 
+
+(* ====================================================================================
+   Guards of the known-finding classes clear-limit-zero and clear-limit-order (C02).
+   ==================================================================================== *)
+(* limit 0 and no key has the prefix (Go reports allDeleted = false) *)
+Definition guard_limit_zero (m : list (list byte * value)) (p : list byte) (limit : N) : bool :=
+  (limit =? 0)%N && forallb (fun e => negb (bytes_prefix p (fst e))) m.
+
+(* 0 < limit < number of matching keys and the (limit+1)-th matching key extends one of the first
+   [limit] (Go removes a key that is a prefix of other matching keys after them) *)
+Definition guard_limit_order (m : list (list byte * value)) (p : list byte) (limit : N) : bool :=
+  let M := map fst (filter (fun e => bytes_prefix p (fst e)) m) in
+  let l := N.to_nat limit in
+  (0 <? l) && (l <? length M) && existsb (fun k => bytes_prefix k (nth l M [])) (firstn l M).
